@@ -280,7 +280,7 @@ func cmdCheck(args []string) {
 				// a sweep also decides sites that are new since the claims were taken
 				return true
 			}
-			if supportKind(ob.Kind) {
+			if supportKind(ob.Kind) || ob.Universal {
 				// later obligations of the function assume these: they are decided whether claimed or not
 				return true
 			}
@@ -341,7 +341,7 @@ func cmdCheck(args []string) {
 			if ob.Status != "unknown" || ob.Kind == "cover" {
 				continue
 			}
-			if claimed[name] || supportKind(ob.Kind) && solveThis(ob) || (len(spec.Files) > 0 && sweepKind(ob.Kind) && solveThis(ob)) {
+			if claimed[name] || (supportKind(ob.Kind) || ob.Universal) && solveThis(ob) || (len(spec.Files) > 0 && sweepKind(ob.Kind) && solveThis(ob)) {
 				retry = append(retry, ob)
 			}
 		}
@@ -514,6 +514,13 @@ func cmdCheck(args []string) {
 			o := *ob
 			o.Desc = "(unproved fact that later obligations assume) " + o.Desc
 			violations = append(violations, violation{ob: &o, reason: "support-" + ob.Status, res: resOf[name]})
+			continue
+		}
+		if ob.Universal && (ob.Status == "refuted" || ob.Status == "unknown") {
+			// "every call of X satisfies ...": a call the clause cannot be shown for, claimed before or not
+			o := *ob
+			o.Desc = "(a call-site clause that speaks of every call of the function) " + o.Desc
+			violations = append(violations, violation{ob: &o, reason: "universal-" + ob.Status, res: resOf[name]})
 			continue
 		}
 		if sweepKind(ob.Kind) && (ob.Status == "refuted" || ob.Status == "unknown") {
